@@ -10,12 +10,12 @@ import pvlib
 from pvlib import Check, run_tlc, run_cases, payloads, ndjson
 
 POOL = ["0", "1", "(-1)", "2", "9223372036854775807", "(-9223372036854775807-1)", "4611686018427387904", "0.0", "1.5", "(-0.5)", "1.0e308", '""', '"a"', '"abc"',
-        '"日本語"', '"a,b"', '" "', "[]", "[1]", "[1, 2, 3]", "[[1], [2]]", "[nil]", '["a", "b"]', "{}", "{a: 1}", "{a: 1, b: {c: 2}}", "{_missing: m{|n| n}}",
+        '"日本語"', '"a,b"', '" "', '"("', '"[a"', '"*"', '"a{2,1}"', "[]", "[1]", "[1, 2, 3]", "[[1], [2]]", "[nil]", '["a", "b"]', "{}", "{a: 1}", "{a: 1, b: {c: 2}}", "{_missing: m{|n| n}}",
         "%{}", "%{1: 2}", '%{"a": [1]}', "(1:3)", "(3:1:-1)", "(1:10:0)", "(nil:nil)", '("a":"c")', "(1:nil)", "((-1):1:9223372036854775807)", '("":?c)', "{|x| x}",
         "{|x, y| y}", "m{self}", "<{|x| yield x}>", "[1, 2]._iter", "nil", "true", "false", "Int", "Str", "Arr", "Obj", "BaseObj", "Map", "Range", "Func", "Iter",
         "Iterable", "Comparable", "Wrappable", "Kernel", "JSON", "Either", "EitherVal", "EitherErr", "Err", "TypeErr", "FileNotFoundErr", "StopIterErr", "Diamond",
         "1.try", "1.try.nosuchprop", "1.try.nosuchprop.err", "_", "'sym", "?c", "`raw`", "<>", "Int.bear.new(3)", "Str.bear.new(\"s\")", "{a: 1}.bear({b: 2})"]
-SUB12 = ["0", "(-1)", "9223372036854775807", '""', '"abc"', "[]", "[1, 2, 3]", "{a: 1}", "nil", "(1:3)", "{|x| x}", "Int"]
+SUB12 = ["0", "(-1)", "9223372036854775807", '""', '"abc"', "[]", "[1, 2, 3]", "{a: 1}", "nil", "(1:3)", "{|x| x}", "Int", '"("']
 SUB25 = SUB12 + ["1", "1.5", '"日本語"', "[nil]", "%{1: 2}", "(3:1:-1)", "true", "Str", "Obj", "1.try", "_", "'sym", "(-9223372036854775807-1)"]
 SKIP = {"exit", "serve", "serveBackground", "import", "invite!", "readline", "readlines"}
 BAD_TOKENS = ['"abc', "\\", "#{", "`x", "'", "?", "\\9", "0x", "1e", '"a#{', "}", ")", "]", "|", "^", "**", "=>", ":=", "@", "$", "&.", "~@", "=@"]
@@ -140,12 +140,51 @@ def run():
         rid = f"d{len(reqs)}"
         reqs.append({"id": rid, "src": consumers[ci].format(d=d), "fuel": 100000, "depth": 150, "deadline_ms": 4000})
         meta[rid] = ("derived", builders[bj], consumers[ci], 0)
+    # iterator literals: every combination of declared parameters, arguments given to new and to recur (too few, exact, too many, keywords), advanced in several ways
+    for np_ in range(0, 4):
+        ps = ["a", "b", "c"][:np_]
+        for nnew in range(0, 5):
+            for nrec in range(0, 5):
+                for kw in ("", "k: 0"):
+                    params = ", ".join(ps + ([kw] if kw else []))
+                    guard = f"{ps[0]} < 3" if ps else "true"
+                    val = ps[0] if ps else "1"
+                    rargs = ", ".join(([f"{ps[0]} + 1"] if ps else ["1"])[:nrec] + [str(k) for k in range(2, nrec + 1)] + (["k: 1"] if kw and nrec % 2 else []))
+                    lit = f"<{{|{params}| yield {val} if {guard}; recur({rargs})}}>"
+                    nargs = ", ".join(str(k) for k in range(nnew))
+                    for use in (".try.next.A", "._iter.try.next.A", "@{|x| x}[:3]", ".{|it| [it.try.next.A, it.try.next.A, it.try.next.A]}"):
+                        rid = f"I{len(reqs)}"
+                        reqs.append({"id": rid, "src": f"{lit}.new({nargs}){use}", "fuel": 20000, "depth": 100, "deadline_ms": 3000})
+                        meta[rid] = ("iter", lit, use, 0)
+    # the value of a body that ends with each kind of statement, used in every way a value can be used
+    stmts = ["defer 1", "defer 1 if true", "defer 1 if false", "return 1", "return 1 if false", "yield 1", "yield 1 if false", "raise Err.new(\"e\")", "raise Err.new(\"e\") if false",
+             "x := 1", "1", "nil", "defer (defer 1)", "return (defer 1)", "defer return 1", "yield (defer 1)", "defer yield 1", "defer raise Err.new(\"e\")", "return return 1", "return yield 1"]
+    uses = ["{{|| {s}}}().p", "[{{|| {s}}}()]", "v := {{|| {s}}}(); v.S", "{{|| {s}}}().try.A", "{{|| {s}}}() == 1", "\"#{{{{|| {s}}}()}}\"", "{{a: {{|| {s}}}()}}.a", "%{{{{|| {s}}}(): 1}}",
+            "<{{|| {s}}}>.new.try.next.A", "<{{|| {s}}}>.new.A", "[1, 2]@{{|x| {s}}}", "[1, 2]$(0){{|a, x| {s}}}", "1.{{|x| {s}}}.p", "{{m: m{{{s}}}}}.m.S", "f := {{|| {s}}}; [f(), f()]",
+            "{{|| {s}; 2}}()", "{{|| 2; {s}}}().repr", "{s}", "({s})", "[{s}]"]
+    for st_ in stmts:
+        for u in uses:
+            rid = f"v{len(reqs)}"
+            reqs.append({"id": rid, "src": u.format(s=st_), "fuel": 20000, "depth": 100, "deadline_ms": 3000})
+            meta[rid] = ("stmt-value", st_, u, 0)
     # a seeded sample also through the real script path
     for rq in rng.sample(reqs, max(200, len(reqs) // (20 if thorough else 60))):
         rid = "R" + rq["id"]
         reqs.append(dict(rq, id=rid, mode="runsource"))
         meta[rid] = ("runsource",) + meta[rq["id"]][1:]
     out = run_cases(reqs, label="C01", shard_timeout_s=3000)
+    # reprise: calls that ended in an error are made again, three times in ONE process each (an error that was survived must not leave anything behind)
+    failed = [rq for rq in reqs if meta[rq["id"]][0] == "call" and out[rq["id"]]["end"].startswith("err:")]
+    rep = [dict(rq, id="P" + rq["id"], repeat=3) for rq in failed]
+    for rq in rep:
+        meta[rq["id"]] = ("reprise",) + meta[rq["id"][1:]][1:]
+    rout = run_cases(rep, label="C01 reprise", shard_timeout_s=3000)
+    for rq in rep:
+        o = rout[rq["id"]]
+        runs = o.get("runs") or []
+        worst = next((r[-1] for r in runs if classify(r[-1]) not in ("syntax", "value", "panerr", "discarded", "discarded-resource")), None)
+        out[rq["id"]] = dict(o, end=worst or o["end"])
+    reqs = reqs + rep
     classes = {}
     crashes = []
     for rq in reqs:
@@ -168,8 +207,16 @@ def run():
         if cls not in illegal:
             continue
         a = again.get(rq["id"])
+        if a and a.get("runs"):       # a repeated request: judged by its worst run, as in the first pass
+            a = dict(a, end=next((r[-1] for r in a["runs"] if classify(r[-1]) not in ("syntax", "value", "panerr", "discarded", "discarded-resource")), a["end"]))
         if a and a.get("end") is not None and classify(a["end"]) in ("syntax", "value", "panerr", "discarded"):
-            raise pvlib.Broken(f"flaky crash observation for {rq['src']!r}: {end!r} vs {a['end']!r}")
+            # alone in a new process it does not crash: does it when the same program is evaluated repeatedly in one process (state left behind by an earlier evaluation)?
+            b = run_cases([dict(rq, id="again", repeat=4)], nproc=1, label="C01 history confirm")["again"]
+            worst = next((r[-1] for r in (b.get("runs") or []) if classify(r[-1]) not in ("syntax", "value", "panerr", "discarded", "discarded-resource")), None)
+            if worst is None:
+                raise pvlib.Broken(f"flaky crash observation for {rq['src']!r}: {end!r} vs {a['end']!r}")
+            rq = dict(rq, repeat=4)
+            end = worst
         m = meta[rq["id"]]
         site = re.search(r"@ ([\w/\.]+:\d+)", end)
         what = re.sub(r"0x[0-9a-f]+", "0x..", end.split(" @ ")[0])[:80]
@@ -177,7 +224,7 @@ def run():
             sig = f"C01:call:{m[2]}:{what}:{site.group(1) if site else '-'}"
         else:
             sig = f"C01:{m[0]}:{what}:{site.group(1) if site else '-'}"
-        ck.reject(sig, f"{rq['src'][:200]!r} (stdin {len(rq.get('stdin', ''))} bytes): {end}", {"src": rq["src"], "stdin": rq.get("stdin", ""), "mode": rq.get("mode", "prog"), "observed": end})
+        ck.reject(sig, f"{rq['src'][:200]!r} (stdin {len(rq.get('stdin', ''))} bytes): {end}", {"src": rq["src"], "stdin": rq.get("stdin", ""), "mode": rq.get("mode", "prog"), "repeat": rq.get("repeat", 1), "observed": end})
     # ---- interactive sessions: TLC enumerates the sessions PanRepl allows; each is typed into the real REPL
     rr = run_tlc("MC_Repl", cfg="MC_Repl.cfg", defines={"MaxLines": "5" if thorough else "4"}, timeout_s=1500)
     if rr.violation:
@@ -249,7 +296,7 @@ def run():
                       f"tuples ({len(argsets)}: none, one from a {len(SUB12) if not thorough else len(POOL)}-value pool, pairs from a sub-pool, keyword / * / ** forms); token space: all pairs of {len(reps)} token "
                       "representatives (from the real lexer over the corpus + malformed tokens) + seeded triples; byte-level mutations of corpus files; index/slice space "
                       "on 15 receivers x 26 indices x 4 forms; derived structures (20 key kinds x 17 builders x 33 consumers: conversions such as Arr#O / Arr#M over descendants of str, then ** / * expansion, "
-                      "iteration, printing, JSON); stdin shapes through <>; interactive sessions: sessions of <= 4 (thorough 5) lines over 12 line kinds that PanRepl allows (quick: 4000 seeded of 22621; thorough: 60000 seeded of all), typed into "
+                      "iteration, printing, JSON); the value of bodies ending in each statement kind (defer / return / yield / raise, guarded, nested) in 20 uses; iterator literals (0..3 parameters x 0..4 arguments to new x 0..4 to recur x keywords x 4 ways to advance); calls that ended in an error made three more times in one process; stdin shapes through <>; interactive sessions: sessions of <= 4 (thorough 5) lines over 12 line kinds that PanRepl allows (quick: 4000 seeded of 22621; thorough: 60000 seeded of all), typed into "
                       "runscript.StartREPL and compared with the transcript PanRepl prescribes (chunks evaluated in one scope), + seeded sessions over mode words in every capitalisation; a seeded sample again through runscript.RunSource; non-trivial = runs ending in a "
                       "Pangaea error (a built-in was reached with arguments it has to reject)")
     ck.assumptions = ["programs cut off by the evaluation fuel / depth / deadline / heap watchdog are discarded (the property's proviso)",
@@ -259,7 +306,8 @@ def run():
 
 def replay(path):
     c = json.load(open(path))["case"]
-    o = run_cases([{"id": "r", "src": c["src"], "stdin": c.get("stdin", ""), "mode": c.get("mode", "prog")}], nproc=1)["r"]
+    o = run_cases([{"id": "r", "src": c["src"], "stdin": c.get("stdin", ""), "mode": c.get("mode", "prog"), "repeat": c.get("repeat", 1)}], nproc=1)["r"]
+    o["end"] = next((r[-1] for r in (o.get("runs") or []) if classify(r[-1]) not in ("syntax", "value", "panerr", "discarded", "discarded-resource")), o["end"])
     print(c["src"][:200], "=>", o["end"])
     if classify(o["end"]) not in ("syntax", "value", "panerr", "discarded"):
         print(f"VIOLATION property=C01 replay={path}")
